@@ -16,7 +16,7 @@ class _Target(Entity):
     def handle_event(self, event):
         self.calls += 1
         slow = event.context.get("metadata", {}).get("slow")
-        return self._serve(event, 3 * self.L + 1.0 if slow else self.L)
+        return self._serve(event, 3 * self.L + P(1.0) if slow else self.L)
 
     def _serve(self, event, d):
         yield d
